@@ -327,6 +327,12 @@ func runC14(r *Run) {
 			parts = append(parts, a.Source())
 		}
 		src := "<p " + strings.Join(parts, " ") + ">x</p>"
+		if rr.Intn(4) == 0 {
+			// an earlier render in this process failed in the middle of an attribute value and of a text, after part of
+			// each had been produced: the attributes of this render carry their own values and nothing else
+			_, _ = c03RenderAny(`<p title="Hello {{ v }}, {{ v | nosuchfilter }}" data-k="pre-{{ v }}-{{ v | nosuchfilter }}">Dear {{ v }}: {{ v | nosuchfilter }}</p>`, map[string]any{"v": "LEFTOVER"})
+			r.Count("history:after-a-render-that-failed-mid-attribute")
+		}
 		out, err := c03RenderAny(src, data.Go())
 		var obs Obs
 		if err != nil {
